@@ -214,9 +214,21 @@ def classify(unit, vxlog, gen_lines, res):
                 if not s.get("is_primary") and f["out_start"] <= s["line_start"] <= f["out_end"]:
                     _, bs = src_line_of(vxlog, s["line_start"])
                     body_site = bs
+        # an unlabelled invariant / assertion / postcondition supports the labelled clauses of its function: it is owned by the
+        # properties those clauses name (safety obligations - overflow, division, stub preconditions - stay owned by every property)
+        inherit = None
+        if label is None and kind in ("postcondition not satisfied", "invariant not satisfied", "assertion failed") and f.get("hdr_start"):
+            own = set()
+            for gl in gen_lines[int(f["hdr_start"]) - 1:int(f["out_end"])]:
+                for lm in LABEL_RE.finditer(gl):
+                    os_ = lm.group(1).split(".")[0].split("+")
+                    if all(re.fullmatch(r"C\d+", o) for o in os_):
+                        own.update(os_)
+            if own:
+                inherit = sorted(own)
         oid_tail = label if label else f"{kind.replace(' ', '_')}@{norm_ws(text)[:120]}"
         oid = f"{unit}/{f['fn']}/{oid_tail}"
-        viol.append({"id": oid, "fn": f["fn"], "kind": kind, "label": label, "text": text.strip(),
+        viol.append({"id": oid, "fn": f["fn"], "kind": kind, "label": label, "inherited_owners": inherit, "text": text.strip(),
                      "src_file": f["file"], "src_line": src or body_site, "gen_line": line,
                      "rendered": d.get("rendered", "")})
     # de-duplicate ids (several exit paths may fail the same clause)
@@ -622,6 +634,8 @@ def main():
                 owners = v["label"].split(".")[0].split("+")
                 if all(re.fullmatch(r"C\d+", o) for o in owners) and pid not in owners:
                     continue
+            elif v.get("inherited_owners") and pid not in v["inherited_owners"]:
+                continue
             if v["id"] in kprop:
                 known_hit.append((v, kprop[v["id"]]))
             else:
